@@ -30,8 +30,10 @@ CompleteN(f) == file'[f].exists /\ file'[f].chunks = Chunks /\ file'[f].closed
 EntryOfN(u) == IF dir'[u] = NoFile THEN NoEntry("absent")
                ELSE IF CompleteN(dir'[u]) THEN [kind |-> "file", w |-> dir'[u][1], j |-> dir'[u][2]]
                ELSE NoEntry("undecodable")
+(* mode "instances": every Set of a writer stores the same bundle, so an entry identifies the writer only (j is reported as 0) *)
+J(e, x) == IF e.mode = "instances" THEN [x EXCEPT !.j = 0] ELSE x
 ProjOKN(e) == Has(e, "proj") =>
-               /\ \A u \in URLs : e.proj.entries[u] = EntryOfN(u)
+               /\ \A u \in URLs : e.proj.entries[u] = J(e, EntryOfN(u))
                /\ e.proj.temps = Cardinality({f \in File : temp'[f]})
                /\ e.proj.strange = 0
 (* the result of the real Get, performed at the position of ROpen, is what the bound file decodes to *)
@@ -40,15 +42,24 @@ ExpectedAtOpen(r) == LET f == dir[rurl[r]] IN
                      ELSE IF Complete(f) THEN [kind |-> "hit", w |-> f[1], j |-> f[2]]
                      ELSE NoEntry("corrupt")
 
+(* The real Set returned successfully without creating a temporary file.  The current code never does that; a store may    *)
+(* be skipped without harm only when the entry already IS that content at that instant: same writer, same-content mode.  *)
+WSkipSame(w) ==
+  /\ wpc[w] \in {"idle", "returned"} /\ wjob[w] < Sets
+  /\ LET f == dir[WUrl[w]] IN f # NoFile /\ Complete(f) /\ f[1] = w
+  /\ wjob' = [wjob EXCEPT ![w] = @ + 1] /\ wpc' = [wpc EXCEPT ![w] = "returned"]
+  /\ UNCHANGED <<dir, file, temp, rpc, rjob, rurl, rfile, rgot, rres, rstart, order, returned>>
+
 Act(e) ==
   CASE e.act = "WBegin"  -> WBegin(e.actor) /\ WUrl[e.actor] = e.arg
+    [] e.act = "WSkip"   -> e.mode = "instances" /\ WSkipSame(e.actor)
     [] e.act = "WWrite"  -> WWrite(e.actor)
     [] e.act = "WClose"  -> WClose(e.actor)
     [] e.act = "WRename" -> WRename(e.actor)
     [] e.act = "WReturn" -> WReturn(e.actor)
     [] e.act = "WCrash"  -> WCrash(e.actor)
     [] e.act = "RBegin"  -> RBegin(e.actor, e.arg)
-    [] e.act = "ROpen"   -> ROpen(e.actor) /\ Has(e, "res") /\ e.res = ExpectedAtOpen(e.actor)
+    [] e.act = "ROpen"   -> ROpen(e.actor) /\ Has(e, "res") /\ e.res = J(e, ExpectedAtOpen(e.actor))
     [] e.act = "RRead"   -> RRead(e.actor)
     [] e.act = "RFinish" -> RFinish(e.actor)
 
